@@ -30,7 +30,10 @@ TReplay == /\ IsEvent("Replay") /\ Replay
            /\ Ev.setupErr = FALSE
            /\ Ev.genuine = obs'.genuine /\ Ev.replayVerifies = obs'.replayVerifies
            /\ Ev.crossVerifies = obs'.crossVerifies /\ Ev.stillVerifies = obs'.stillVerifies
-TraceNext == TReset \/ TSplit \/ TRecover \/ TCombine \/ TReplay
+\* the batch's witness (a key, a message, its signature and a signature by another key), verified before the first and after
+\* the last case of the process: valid stays valid, forged stays forged
+TRevisit == IsEvent("Revisit") /\ Ev.validBefore /\ Ev.validAfter /\ ~Ev.forgedBefore /\ ~Ev.forgedAfter /\ UNCHANGED vars
+TraceNext == TReset \/ TSplit \/ TRecover \/ TCombine \/ TReplay \/ TRevisit
 TraceSpec == TraceInit /\ [][TraceNext]_tvars
 Mark == CheckInv("TypeOK", TypeOK) /\ HWMark
 ====
